@@ -472,18 +472,18 @@ func checkC04(c *Ctx) {
 				return
 			}
 			passThrough[ret] = true
-			for _, h := range naming {
-				if h == g {
-					return
-				}
-			}
-			naming = append(naming, g)
 		})
 	}
 	for _, fn := range naming {
 		nRet := 0
 		var badCase, badEmpty []string
-		for _, ret := range successReturns(fn) {
+		rets := successReturns(fn)
+		eng.EachInstr(fn, func(in ssa.Instruction) {
+			if ret, ok := in.(*ssa.Return); ok && passThrough[ret] {
+				rets = append(rets, ret) // evaluated through the helper with this call's arguments
+			}
+		})
+		for _, ret := range rets {
 			res := eng.ReturnResults(ret)
 			if !isString(res[0].Type()) {
 				continue
@@ -521,13 +521,7 @@ func checkC04(c *Ctx) {
 		} else {
 			r.Ok("C04/NONEMPTY", cons, p.Pos(fn.Pos()), "%d success returns, all provably non-empty", nRet)
 		}
-		nPass := 0
-		eng.EachInstr(fn, func(in ssa.Instruction) {
-			if ret, ok := in.(*ssa.Return); ok && passThrough[ret] {
-				nPass++
-			}
-		})
-		r.Floor("C04/CASE", "success returns of "+cons, nRet+nPass, 1)
+		r.Floor("C04/CASE", "success returns of "+cons, nRet, 1)
 	}
 	if local != nil {
 		var bad []string
